@@ -7,6 +7,7 @@ import Alpen.Model.Reserve
 import Alpen.Model.UpDown
 import Alpen.Model.Queue
 import Alpen.Model.Task
+import Alpen.Model.Retry
 /-!
 Line-protocol driver: one operation per line on stdin, one canonical answer line on
 stdout.  Strings travel as comma-separated code points (`-` = empty string).
@@ -63,6 +64,38 @@ def decPEdge : List String → Option PEdge
 def decPCopy : List String → Option PCopy
   | [i, f, n, h, w] => do pure ⟨← i.toNat?, ← f.toNat?, ← n.toNat?, ← Has.ofString h, ← Wants.ofString w⟩
   | _ => none
+
+def decSeg (t : String) : Option Seg :=
+  match t.splitOn "/" with
+  | [regs, ending] => do
+      let rs ← if regs = "-" then some [] else (regs.splitOn ".").mapM (fun r =>
+        if r.endsWith "f" then (r.dropEnd 1).toString.toNat?.map (fun n => (n, true))
+        else if r.endsWith "l" then (r.dropEnd 1).toString.toNat?.map (fun n => (n, false)) else none)
+      let e ← if ending = "d" then some SegEnd.done
+        else if ending = "e" then some SegEnd.dbError
+        else if ending = "x" then some SegEnd.otherError
+        else if ending = "yN" then some (SegEnd.yield none)
+        else if ending.startsWith "y" then (ending.drop 1).toString.toNat?.map (fun n => SegEnd.yield (some n))
+        else none
+      pure ⟨rs, e⟩
+  | _ => none
+
+def tevStr : TEv → String
+  | .cleanupStarted i => s!"c{i}"
+  | .reput k e w => s!"P:{k}:{encBool e}:{w}"
+  | .taskDone k => s!"D:{k}"
+  | .requeued k e => s!"Q:{k}:{encBool e}"
+  | .abort => "A"
+  | .workerExit c => s!"X{c}"
+
+/-- iterate `workerHandle` while the task yields -/
+def taskRun (beh : Nat → CleanBeh) : Nat → TaskSt → List TEv
+  | 0, _ => []
+  | fuel + 1, t =>
+    let (t', evs) := workerHandle beh t
+    let yielded := evs.any (fun e => match e with | .reput _ _ _ => true | _ => false)
+    let exited := evs.any (fun e => match e with | .workerExit _ => true | _ => false)
+    if yielded && !exited then evs ++ taskRun beh fuel t' else evs
 
 /-- `id:int` pairs -/
 def decPairsNI (t : String) : Option (List (Nat × Int)) :=
@@ -122,6 +155,18 @@ def pure1 (toks : List String) : Option String :=
   | ["valmd5", s] => do
       let s ← decStr s
       pure (match validateMd5 s with | none => "none" | some d => encStr d)
+  | ["retry", ac, tx, cl, o0, o1] => do
+      let o0 ← decBool o0; let o1 ← decBool o1
+      let (evs, r) := retryExecute (← decBool ac) (← decBool tx) (← decBool cl) (fun i => if i = 0 then o0 else o1)
+      let es := evs.map (fun e => match e with | .attempt ok => s!"a{encBool ok}" | .close => "close")
+      pure s!"{" ".intercalate es} -> {encBool r}"
+  | ["t.run", key, excl, rq, segs, dbIds, otherIds] => do
+      let segs ← if segs = "-" then some [] else (segs.splitOn ";").mapM decSeg
+      let db ← decNats dbIds; let ot ← decNats otherIds
+      let beh : Nat → CleanBeh := fun i => if ot.contains i then .otherError else if db.contains i then .dbError else .ok
+      let t : TaskSt := ⟨← key.toNat?, ← decBool excl, ← decBool rq, segs, []⟩
+      let evs := taskRun beh (segs.length + 2) t
+      pure (if evs.isEmpty then "-" else " ".intercalate (evs.map tevStr))
   | _ => none
 
 end Drv
@@ -176,6 +221,49 @@ def stateful (s : St) (toks : List String) : Option (St × String) :=
       let dt ← dt.toNat?
       pure ({ s with ud := (ustep s.ud (.tick dt)).1 }, "ok")
   | ["u.dump"] => some (s, udDump s)
+  | ["q.reset", keys] => do
+      let ks ← decNats keys
+      pure ({ s with q := Q.init, qKeys := ks }, "ok")
+  | ["q.put", i, e, k] => do
+      let it : QItem := ⟨← i.toNat?, ← decBool e⟩
+      pure ({ s with q := s.q.putNow it (← k.toNat?) }, "1")
+  | ["q.putd", i, e, k, w, now] => do
+      let it : QItem := ⟨← i.toNat?, ← decBool e⟩
+      let (q', r) := s.q.putDeferred it (← k.toNat?) (← w.toNat?) (← now.toNat?)
+      pure ({ s with q := q' }, encBool r)
+  | ["q.promote", now] => do
+      pure ({ s with q := s.q.promote (← now.toNat?) }, "ok")
+  | ["q.get", now, ch] => do
+      let c ← decOptNat ch
+      let (q', r) := s.q.getAttempt (← now.toNat?) s.qKeys c
+      match r with
+      | .none => pure ({ s with q := q' }, "none")
+      | .item k it => pure ({ s with q := q' }, s!"item {k} {it.id} {encBool it.excl}")
+      | .badChoice => pure ({ s with q := q' }, "badChoice")
+  | ["q.done", k] => do
+      match s.q.taskDone (← k.toNat?) with
+      | none => pure (s, "valueError")
+      | some q' => pure ({ s with q := q' }, "ok")
+  | ["q.joinBegin"] => some ({ s with q := s.q.joinBegin }, "ok")
+  | ["q.joinCheck", t] => do
+      let (q', r) := s.q.joinCheck (← t.toNat?)
+      pure ({ s with q := q' }, encBool r)
+  | ["q.joinEnd"] => some ({ s with q := s.q.joinEnd }, "ok")
+  | ["q.size", kind, arg] => do
+      let a ← arg.toNat?
+      match kind with
+      | "qsize" => pure (s, toString s.q.qsize)
+      | "inprogress" => pure (s, toString s.q.inprogressSize)
+      | "deferred" => pure (s, toString s.q.deferredSize)
+      | "fifo" => pure (s, toString (s.q.fifoSize a))
+      | _ => none
+  | ["q.dump"] =>
+      let ks := sortNats s.qKeys
+      let per := ks.filterMap (fun k => if s.q.known k then
+        some s!"{k}:[{encNats ((s.q.fifo k).map (·.id))}]:{s.q.inprog k}:{encBool (s.q.locked k)}" else none)
+      let kb := (List.range s.q.keysByLen).map (fun c => encNats (ks.filter (fun k => s.q.keysBy c k)))
+      let df := s.q.deferrals.map (fun d => s!"{d.expiry}/{d.item.id}/{d.key}")
+      some (s, s!"tq={s.q.totalQueued} ti={s.q.totalInprog} joining={encBool s.q.joining} fifos={" ".intercalate per}; keysBy={"|".intercalate kb} deferrals={",".intercalate df}")
   | _ => none
 
 end Drv
